@@ -62,3 +62,16 @@ NOT_COVERED["C19"] = [
     "'emits bars in time order at the end of their window': one bar per flush stamped with the window's last instant is proved; the timing of the flush is the sleep computation in main() (not specified)",
     "sum of amounts is the recursive spec function wsum (axioms instantiated by the checker, not proved from a definition of finite sums)",
 ]
+
+NOT_COVERED["C03"] = [
+    "clause 1 (every fill later than the submission) is carried by four obligations -- the pass consists of events that existed when it began (no_late_joiners, exposed F-C03-1, fixed), the exchange matches orders before it re-publishes the bar (matched_before_republish), a fill is stamped with the bar event's time (fill_time), submitting an order never fills it (add_order) -- plus the hypothesis that the clock equals the time of the event being handled; the induction over passes that composes them is argued in DESIGN, not machine-checked",
+    "clause 2 (results independent of max_concurrent, hash seed, run): the repo-side dependence on the pool size is what no_late_joiners removes; that ready tasks start in creation order and a non-suspending handler runs to completion is the asyncio assumption; set iteration order is covered in that every loop over a set/dict is proved for an arbitrary order",
+    "tie order between sources with equal timestamps (earliest subscribed first) is not expressed",
+]
+LEVELS["C10"] = "other"
+NOT_COVERED["C10"] = [
+    "the three sums (used margin, equity, outstanding interest) are uninterpreted spec functions of the maps; _calculate_margin_level is under a TRUSTED contract stating its definition in terms of them",
+    "that the rule is consulted on both borrowing paths: AccountBalances.update runs every pushed rule (proved, C06/C07) and MarginLoans.set_exchange_context pushes CheckMarginLevel (one statement, by inspection)",
+    "F-C10-1 (known finding): margin level exactly 0 with margin in use is let through",
+]
+ASSUMPTIONS.setdefault("C10", [])
